@@ -18,6 +18,8 @@ CLAIMED={
         "Trusted: engine, interpreted x/net http2+hpack, cvc5/z3. Out: HPACK re-encoding/table-size changes, relayFrames goroutines and eventual delivery through the writer goroutine, gRPC layers, multiple interleaved streams beyond the C09 step."),
  "C04":("parseBasicAuth/AuthenticatedRequest for every header value up to 14/18 bytes and symbolic 1..2-byte credentials against a reference base64 decoder; isLocalhost on every spelling of loopback/unspecified literals and solver-decided letter case; time-frame matching for symbolic weekday/hour/entries; the real modifier stack and error path under all 16 on/off combinations of the four controls; the whole connection loop (real http.ReadRequest, modifiers, response writer) over two-request connections with a scripted next hop: refused requests cause 0 round trips and 0 dials and carry the right status/challenge.",
         "Trusted: engine + base64/ConstantTimeCompare/regexp models (differential self-test on every run), interpreted net/http wire code, cvc5 with z3 fallback. Out: TLS/MITM transport, DNS-level aliases of loopback, deny-domain regexps (C17), longer headers/credentials."),
+ "C01":("The real connection loop (http.ReadRequest, scheme fix-up, modifier stack, round trip hand-off) is executed symbolically over scripted request bytes: every list of <=2/3 header fields from a 19-entry pool (end-to-end, hop-by-hop, Connection nominations, Via, X-Forwarded-*, User-Agent) with symbolic values, GET/POST, absolute/origin form with escaped query, HTTP/1.0/1.1, no body / Content-Length / chunked (1-2 chunks, symbolic bytes), first or second request of a keep-alive connection; what the recording next hop receives is compared field by field with the reference.",
+        "Trusted: engine, interpreted net/http request parser, cvc5/z3. Out: http.Transport serialisation and Accept-Encoding, upstream-proxy and MITM transports (same modifier path), site credentials/header rules (C06/C16), bodies near 4 KiB/32 KiB buffers, longer header lists."),
 }
 NA={
  "C14":"deciding code is the goja JavaScript VM executing PAC scripts; not encodable by a Go-SSA symbolic executor (result-list parsing is covered under C05)",
